@@ -750,6 +750,14 @@ def row_value(v):
     then marked as moved: the model keeps rows by value, see fresh_seq), or an immutable sequence as is."""
     if isinstance(v, RowRef):
         raise Unsupported("storing a row of a nested list into another slot (row aliasing is not modelled)")
+    if isinstance(v, RowItem):
+        # `for row in a: b.append(row)`: CPython stores the SAME list object in b.  The by-value model stores its
+        # content; that is faithful as long as neither list has a row changed in place afterwards, so both lists are
+        # marked and any later in-place change of one of their rows (RowRef.seq setter) is rejected as Unsupported.
+        if isinstance(v.parent, LRef):
+            v.parent.rows_shared = True
+        v.shared = True
+        return v.seq
     if isinstance(v, LRef):
         content = v.seq
         v.seq = _MovedSeq()
@@ -783,6 +791,8 @@ class RowRef(LRef):
     @seq.setter
     def seq(self, new):
         self._check()
+        if getattr(self.parent, "rows_shared", False):
+            raise Unsupported("a row of a list that shares row objects with another list is changed in place (row aliasing is not modelled)")
         self.parent.seq = seq_update(self._stamp, self.index, tuple(new) if isinstance(new, list) else new)
         self._stamp = self.parent.seq
 
@@ -801,8 +811,10 @@ class RowItem(LRef):
     concatenating (`row + [...]` builds a new list, as in CPython) are as for any list.
     Cross-check against CPython: spec/xcheck_cases.py x_generator (iterates over rows of a nested list)."""
 
-    def __init__(self, content):
+    def __init__(self, content, parent=None):
         self._content = content
+        self.parent = parent  # the list iterated over (marked when this row is stored into another list)
+        self.shared = False
         self.serial = 0
 
     @property
